@@ -470,7 +470,10 @@ func (s *Spec) walkBlock(fr *Frame, b *ssa.BasicBlock, pred *ssa.BasicBlock, st 
 		case *ssa.FieldAddr:
 			// x.f was evaluated, so the pointer x is not nil on this path
 			if _, isPtr := x.X.Type().Underlying().(*types.Pointer); isPtr {
-				if cur, ok := st.env[x.X]; !ok || cur.K == AUnknown {
+				if s.abs(x.X, st).K == ANil {
+					// … unless the path has established that it is: a nil dereference
+					st.items = append(st.items, Item{Label: "nil-deref:" + types.TypeString(x.X.Type(), func(*types.Package) string { return "" }), Instr: in, Frame: fr})
+				} else if cur, ok := st.env[x.X]; !ok || cur.K == AUnknown {
 					st.env[x.X] = AbsVal{K: ANonNil}
 				}
 			}
@@ -530,6 +533,12 @@ func (st *walkState) resolve(v ssa.Value, fr *Frame) (ssa.Value, *Frame) {
 		case *ssa.ChangeType:
 			v = x.X
 			continue
+		case *ssa.MakeInterface:
+			v = x.X
+			continue
+		case *ssa.ChangeInterface:
+			v = x.X
+			continue
 		case *ssa.UnOp:
 			if x.Op != token.MUL {
 				break
@@ -549,6 +558,22 @@ func (st *walkState) resolve(v ssa.Value, fr *Frame) (ssa.Value, *Frame) {
 					_ = afr
 					v, fr = sv.v, sv.fr
 					continue
+				}
+			}
+		case *ssa.FreeVar:
+			// a captured value (not a variable cell): what the closure was bound to
+			if fr != nil && fr.Site != nil {
+				if mc, ok := fr.Site.Common().Value.(*ssa.MakeClosure); ok {
+					hit := false
+					for j, f := range fr.Fn.FreeVars {
+						if f == x && j < len(mc.Bindings) {
+							v, fr = mc.Bindings[j], fr.Parent
+							hit = true
+						}
+					}
+					if hit {
+						continue
+					}
 				}
 			}
 		case *ssa.Parameter:
@@ -672,6 +697,9 @@ func (s *Spec) assume(cond ssa.Value, pol bool, st *walkState) {
 					} else {
 						st.env[x] = AbsVal{K: ANonNil}
 					}
+				}
+				if !eq {
+					s.nilOnError(x, st)
 				}
 				return
 			}
@@ -797,6 +825,16 @@ func (s *Spec) abs(v ssa.Value, st *walkState) AbsVal {
 			return res
 		}
 	case *ssa.Extract:
+		if t, ok := st.tuple[x.Tuple]; ok && x.Index < len(t) && t[x.Index].K != AUnknown {
+			return t[x.Index]
+		}
+		// result of an inlined helper that itself hands on a library call's results: what is known
+		// about the value the helper's taken return yields
+		if rv, _ := st.resolve(x, nil); rv != ssa.Value(x) {
+			if a, ok := st.env[rv]; ok && a.K != AUnknown {
+				return a
+			}
+		}
 		if t, ok := st.tuple[x.Tuple]; ok && x.Index < len(t) {
 			return t[x.Index]
 		}
@@ -1008,7 +1046,14 @@ func (s *Spec) runDefers(fr *Frame, st *walkState, idx int, panicking bool, done
 		return
 	}
 	if l := s.eventLabel(d, fr, "run:"); l != "" {
-		st.items = append(st.items, Item{Label: l, Instr: d, Frame: fr})
+		it := Item{Label: l, Instr: d, Frame: fr}
+		// (arguments of a deferred call were evaluated when it was registered; resolving them now
+		// gives the same values for everything but cells reassigned in between)
+		for _, a := range d.Call.Args {
+			rv, rf := st.resolve(a, fr)
+			it.Args = append(it.Args, PathVal{V: rv, Fr: rf})
+		}
+		st.items = append(st.items, it)
 	}
 	if !pureCall(CalleeName(d)) && s.mayWriteHelios(d) {
 		st.facts = map[string]factVal{}
@@ -1204,4 +1249,37 @@ func pureCall(name string) bool {
 		}
 	}
 	return false
+}
+
+// nilOnError: err was found non-nil.  When err is the error result of a library call that also
+// returns a pointer ((*http.Client).Do, url.Parse, os.Open, …), that pointer is to be treated as nil
+// on this path: the library's contract is "on error the other result is nil (or must be ignored)",
+// so a dereference that is not preceded by its own nil test is a crash waiting for the fault.
+func (s *Spec) nilOnError(errv ssa.Value, st *walkState) {
+	rv, _ := st.resolve(errv, nil)
+	ex, ok := rv.(*ssa.Extract)
+	if !ok {
+		return
+	}
+	call, ok := ex.Tuple.(*ssa.Call)
+	if !ok {
+		return
+	}
+	sig := call.Call.Signature()
+	if sig == nil || sig.Results().Len() != 2 || ex.Index != 1 || sig.Results().At(1).Type().String() != "error" {
+		return
+	}
+	if _, isPtr := sig.Results().At(0).Type().Underlying().(*types.Pointer); !isPtr {
+		return
+	}
+	if callee := StaticFn(call); callee != nil && s.P != nil && s.P.IsHelios(callee) {
+		return // a Helios helper: judged by its own returns when inlined
+	}
+	if refs := call.Referrers(); refs != nil {
+		for _, r := range *refs {
+			if e0, ok := r.(*ssa.Extract); ok && e0.Index == 0 {
+				st.env[e0] = AbsVal{K: ANil}
+			}
+		}
+	}
 }
